@@ -662,10 +662,37 @@ class DrainBuilder:
             self.add("release")
             self.held = False
 
+    def park_window(self):
+        """T3: the HEADERS of the next stream is read and the reader goroutine is parked inside operateHeaders, after
+        `t.maxStreamID = streamID` and before the `t.state` check, while other goroutines (loopy's GOAWAY handlers, the
+        5 s fallback timer, handlers finishing, Close) run.  No client frame can be processed inside the window."""
+        rng = self.rng
+        if self.held:
+            return
+        sid = self.next
+        self.add("hdrpark %d" % sid)
+        self.ids.append(sid)
+        self.next = sid + 2
+        for _ in range(rng.randrange(1, 5)):
+            r = rng.random()
+            if r < 0.3:
+                self.add("drain")
+            elif r < 0.65:
+                self.add("sleep %d" % rng.choice([10, 1000, 5000, 5000]))
+            elif r < 0.9 and self.ids[:-1]:
+                self.add("finish %d %d" % (rng.choice(self.ids[:-1]), rng.choice([0, 5])))
+            elif r < 0.94:
+                self.add("close")
+            else:
+                self.add("sleep 10")
+        self.add("unpark")
+
     def random_op(self):
         rng = self.rng
         r = rng.random()
-        if r < 0.28:
+        if r < 0.05:
+            self.park_window()
+        elif r < 0.28:
             self.hdr(self.next + rng.choice([0, 0, 0, 2]))
         elif r < 0.31:
             self.hdr(rng.choice([0, 2, self.next - 2 if self.next > 2 else 1, self.next + 1]))     # illegal id
@@ -730,6 +757,41 @@ def drain_cases(rng, n_random):
             b.add("finish %d 0" % b.ids[-1])
             b.add("end")
             cases.append((b.ops, "drain-stalled-%s-%d" % (first, k)))
+    # a new stream racing with the GOAWAYs: its HEADERS is inside operateHeaders (id recorded, admission not yet decided)
+    # while the heads-up / final GOAWAY handlers, the fallback timer, other handlers or Close run
+    for k in (0, 1, 2):
+        for when in ("drain-park-timer", "park-drain-timer", "park-only", "drain-park-close", "drain-park-finish-timer", "park-drain-unpark-ack"):
+            b = DrainBuilder(rng)
+            for _ in range(k):
+                b.hdr()
+            sid = b.next
+            steps = {
+                "drain-park-timer": ["drain", "P", "sleep 5000"],
+                "park-drain-timer": ["P", "drain", "sleep 1000", "sleep 5000"],
+                "park-only": ["P", "sleep 1000"],
+                "drain-park-close": ["drain", "P", "close", "sleep 10"],
+                "drain-park-finish-timer": ["drain", "P"] + ["finish %d 0" % i for i in b.ids] + ["sleep 5000"],
+                "park-drain-unpark-ack": ["P", "drain", "sleep 10"],
+            }[when]
+            for st in steps:
+                if st == "P":
+                    b.add("hdrpark %d" % sid)
+                    b.ids.append(sid)
+                    b.next = sid + 2
+                else:
+                    b.add(st)
+            b.add("unpark")
+            if when == "park-drain-unpark-ack":
+                b.add("pingack " + GOAWAY_PING)
+            b.add("sleep 10")
+            b.hdr()
+            ids = list(b.ids)
+            rng.shuffle(ids)
+            for i in ids:
+                b.add("finish %d 0" % i)
+            b.add("sleep 6000")
+            b.add("end")
+            cases.append((b.ops, "drain-park-%d-%s" % (k, when)))
     for i in range(n_random):
         b = DrainBuilder(rng)
         for _ in range(rng.randrange(0, 4)):
